@@ -356,6 +356,19 @@ def run(ctx):
                         if e[0] == "f" and e[2] == "prefix" and len(e) > 4 and "Option<" in e[4] and str(e[3]).startswith(MAC + "::"):
                             roots.setdefault(e[3], set()).add(i)
         if not roots:
+            # ... or through a private method of the container attributes that does (`root_attrs.inflect_with_prefix(..)`)
+            for c in b.calls():
+                for hb in local_callee_bodies(F, c):
+                    if hb.crate != MAC or hb.kind == "Closure":
+                        continue
+                    for i2 in hb.live_blocks():
+                        for s2 in hb.stmts(i2):
+                            if s2["k"] == "assign":
+                                pl2 = s2["rv"].get("place") if isinstance(s2["rv"].get("place"), dict) else None
+                                for e in (pl2 or {}).get("p", []):
+                                    if e[0] == "f" and e[2] == "prefix" and len(e) > 4 and "Option<" in e[4] and str(e[3]).startswith(MAC + "::"):
+                                        roots.setdefault(e[3], set()).add(c.bb)
+        if not roots:
             continue
         radt, pblocks = sorted(roots.items())[0]
         rparams = [j for j in range(1, b.arg_count + 1) if radt in b.locals[j]["ty"]]
